@@ -151,7 +151,8 @@ def strip_run(r):
 
 def strip_obs(c):
     """the input part of a case (what --cases needs)"""
-    out = {"id": c["id"], "class": c.get("class", ""), "tick_ns": c.get("tick_ns", 0), "init": c.get("init") or [],
+    out = {"id": c["id"], "class": c.get("class", ""), "tick_ns": c.get("tick_ns", 0), "clock": c.get("clock", ""),
+           "last_from": c.get("last_from", 0), "gap_ns": c.get("gap_ns", 0), "init": c.get("init") or [],
            "init_tables": c.get("init_tables") or [],
            "runs": [strip_run(r) for r in c["runs"]]}
     if c.get("conc") is not None:
@@ -397,6 +398,33 @@ def run_rotate(ck):
                 ck.extra["observation_concurrent_different_configurations"] = {
                     "metrics_15s_ttl": ttl, "recorded": rec, "errors": c["conc"]["errs"],
                     "diverged_as_the_theorem_says": bool(rec) and rec[0] != ttl and "toIntervalDay(60)" in ttl and "toIntervalDay(30)" in rec[0]}
+    # the witnesses of nondecreasing_clock_is_not_enough on the real code (observations about a server clock outside
+    # the hypothesis clock_advances: an uninterrupted run leaves samples_v3 on an interrupted run's TTL), and the same
+    # histories under a clock that advances over every executed SELECT and ALTER (controls: these go into Coq too)
+    wit = os.path.join(os.path.dirname(os.path.dirname(__file__)), "corpus", PID, "clock_witnesses.jsonl")
+    if os.path.exists(wit):
+        outp = os.path.join(ck.work, "rotate_witnesses.jsonl")
+        rc, out = ck.go_run("rotate", ["--cases", wit, "--out", outp])
+        if rc != 0:
+            ck.obligation("clock witnesses ran", False, out[-1500:])
+            return
+        expect = {json.loads(l)["id"]: json.loads(l)["expect"] for l in open(wit)}
+        obs, good = [], True
+        for c in [json.loads(l) for l in open(outp)]:
+            e = expect[c["id"]]
+            last = c["runs"][-1]
+            ttl = {t["name"]: t["ttl"] for t in last["state"]["tables"]}["samples_v3"]
+            o = {"class": c["class"], "clock": c.get("clock"), "last_run_error": last["err"], "last_run_configured_days": e["last_cfg_days"],
+                 "samples_v3_ttl_after": ttl, "alters_of_last_run": sum(1 for x in last["log"] if x["sql"].startswith("ALTER")),
+                 "as_the_theorem_says": (not last["err"]) and ("toIntervalDay(%d)" % e["samples_v3_days"]) in ttl}
+            good = good and o["as_the_theorem_says"]
+            obs.append(o)
+            if c["class"].startswith("control:"):
+                c["id"] = 2000000 + c["id"]
+                cases.append(c)
+        ck.extra["observation_clock_ties"] = obs
+        ck.obligation("the witnesses of nondecreasing_clock_is_not_enough replay on the real Rotate (a clock advancing over ALTERs only / SELECTs only: an uninterrupted run leaves samples_v3 on the interrupted run's TTL) and the same histories converge under a clock that advances over every executed SELECT and ALTER",
+                      good and len(obs) == 4, json.dumps(obs)[:1500])
     outp = os.path.join(ck.work, "rotate.jsonl")
     args = ["--seed", ck.seed, "--n", ck.n(1100, 12000), "--out", outp]
     if not ck.quick():
